@@ -37,6 +37,10 @@ func c15Alphabet(thorough bool, withBatchGet bool) func(m *model.Model) []drv.Op
 		add("Transact", drv.Op{K: drv.KTransact})
 		k1, k2 := keys[0], keys[1]
 		add("BatchWrite(1)", drv.Op{K: drv.KBatchWrite, Batch: []drv.BWReq{{Table: "tba", Put: with(k1, "a", val.S("b1"))}}})
+		if m.Fail != "" {
+			// an item with empty containers: what comes back as unprocessed is the request as submitted
+			add("BatchWrite(item with empty list, map, binary)", drv.Op{K: drv.KBatchWrite, Batch: []drv.BWReq{{Table: "tba", Put: with(k1, "l", val.L(), "m", val.M("n", val.M()), "b", val.V{T: "B", B: []byte{}})}}})
+		}
 		add("BatchWrite(2)", drv.Op{K: drv.KBatchWrite, Batch: []drv.BWReq{{Table: "tba", Put: with(k1, "a", val.S("b2"))}, {Table: "tbb", Del: k1.Clone()}}})
 		add("BatchWrite(3)", drv.Op{K: drv.KBatchWrite, Batch: []drv.BWReq{{Table: "tba", Del: k1.Clone()}, {Table: "tba", Put: with(k2, "a", val.S("b3"))}, {Table: "tbb", Put: with(k1, "a", val.S("b3"))}}})
 		if thorough {
